@@ -42,7 +42,11 @@ REQUIRED = ["programs", "steps_checked", "timed_resumes", "select_timeouts",
             "select_writable", "tasks_failed_in_blocking_op",
             "blocks_via_sleep_without_time", "sleeps_to_a_past_deadline",
             "subtask_falsy_returns", "plain_task_functions",
-            "timers_that_may_not_stop_themselves"]
+            "timers_that_may_not_stop_themselves",
+            "programs_on_real_descriptors",
+            "select_same_descriptor_for_reading_and_writing",
+            "descriptors_closed_right_after_their_wait",
+            "descriptor_numbers_reused"]
 TIMEOUT = {"quick": 1200, "thorough": 9000}
 
 _st = {}
@@ -103,6 +107,13 @@ def run_program (case, rep):
     return _run_program(case, rep, w, clock, sched, fire, rc)
   finally:
     sched._thread = saved_thread
+    if case.get("realfd") and _st.get("w") is w:
+      # (also after a violation: nothing of this program stays behind)
+      for t in list(w.hub._tasks.keys()):
+        del w.hub._tasks[t]
+      while not w.hub._incoming.empty():
+        w.hub._incoming.get()
+      close_real(w, *_st.pop("real", ({}, {}, False)))
 
 
 def _run_program (case, rep, w, clock, sched, fire, rc):
@@ -118,9 +129,61 @@ def _run_program (case, rep, w, clock, sched, fire, rc):
   t_start = clock.now
   nt = [False]
 
+  # With "realfd" the descriptors are real ones (socket pairs): those reach
+  # the hub's own select function -- select.select or the epoll emulation --
+  # instead of being answered by the stand-in.
+  real = bool(case.get("realfd"))
+  peers = {}
+  w.stats["strict_real"] = real
+  _st["real"] = (socks, peers, real)
+  if real: rep.count("programs_on_real_descriptors")
+
   def sock (name):
-    if name not in socks: socks[name] = simnet.FakeSocket(name)
+    if name not in socks:
+      if real:
+        import socket
+        a, b = socket.socketpair()
+        a.setblocking(False); b.setblocking(False)
+        socks[name] = a; peers[a] = b
+      else:
+        socks[name] = simnet.FakeSocket(name)
     return socks[name]
+
+  def feed (s, p):
+    if real: peers[s].send(p)
+    else: s.feed(p)
+
+  def block (s):
+    """Fills s's send buffer: not writable until unblock()."""
+    if real:
+      try:
+        while True: s.send(b"x" * 65536)
+      except BlockingIOError:
+        pass
+    else:
+      s.send_script = ["eagain_blocked"]
+      try: s.send(b"x")
+      except Exception: pass
+
+  def unblock (s):
+    if real:
+      try:
+        while peers[s].recv(1 << 20): pass
+      except BlockingIOError:
+        pass
+    else:
+      s.unblock()
+
+  def done_with (*ss):
+    """What a program does with a connection it has finished with."""
+    if not (real and case.get("close_after")): return
+    for s in ss:
+      for name, x in list(socks.items()):
+        if x is s: del socks[name]
+      p = peers.pop(s, None)
+      s.close()
+      if p is not None: p.close()
+      rep.count("descriptors_closed_right_after_their_wait")
 
   def enter (tid):
     if state["running"] is not None:
@@ -239,10 +302,11 @@ def _run_program (case, rep, w, clock, sched, fire, rc):
                        (tid, k, clock.now - t0, st[1])))
         if v is None or any(len(x) for x in v):
           errs.append(("select timeout did not return empty lists", repr(v)))
+        done_with(s)
       elif kind in ("sel_data", "recv"):
         s = sock("%s/%d" % (tid, k))
         payload = b"d-%s-%d" % (str(tid).encode(), k)
-        externals.append((t0 + st[1], lambda s=s, p=payload: s.feed(p)))
+        externals.append((t0 + st[1], lambda s=s, p=payload: feed(s, p)))
         nt[0] = True
         if kind == "sel_data":
           other = sock("%s/%d/quiet" % (tid, k))
@@ -255,6 +319,7 @@ def _run_program (case, rep, w, clock, sched, fire, rc):
                          "descriptors", "task %s step %d got %r" % (tid, k, v)))
           if clock.now < t0 + st[1] - 1e-9:
             errs.append(("select returned before data arrived", ""))
+          done_with(s, other)
         else:
           v = yield rc.Recv(s)
           enter(tid)
@@ -262,6 +327,7 @@ def _run_program (case, rep, w, clock, sched, fire, rc):
           if v != payload:
             errs.append(("Recv did not return the data that arrived",
                          "task %s step %d got %r" % (tid, k, v)))
+          done_with(s)
       elif kind == "recv_to":
         # a receive with a timeout on a socket nothing arrives on: resumes at
         # the timeout, with None, once
@@ -274,11 +340,12 @@ def _run_program (case, rep, w, clock, sched, fire, rc):
                        "task %s step %d at +%.3f of %.3f" % (tid, k, clock.now - t0, st[1])))
         if v is not None:
           errs.append(("receive that timed out returned data", repr(v)))
+        done_with(s)
       elif kind == "sel_two":
         # two descriptors of one Select become ready at the same instant
         a = sock("%s/%d/a" % (tid, k)); b = sock("%s/%d/b" % (tid, k))
         q = sock("%s/%d/q" % (tid, k))
-        externals.append((t0 + st[1], lambda a=a, b=b: (a.feed(b"A"), b.feed(b"B"))))
+        externals.append((t0 + st[1], lambda a=a, b=b: (feed(a, b"A"), feed(b, b"B"))))
         nt[0] = True
         v = yield rc.Select([a, q, b], [], [], st[2])
         enter(tid)
@@ -286,15 +353,14 @@ def _run_program (case, rep, w, clock, sched, fire, rc):
         if v is None or sorted(map(id, v[0])) != sorted([id(a), id(b)]) or v[1] or v[2]:
           errs.append(("select did not resume with exactly the ready descriptors",
                        "task %s step %d (two ready) got %r" % (tid, k, v)))
+        done_with(a, b, q)
       elif kind == "sel_w":
         # waiting for writability: the socket's send buffer is full until an
         # external drains it
         s = sock("%s/%d" % (tid, k))
-        s.send_script = ["eagain_blocked"]
-        try: s.send(b"x")
-        except Exception: pass
+        block(s)
         q = sock("%s/%d/q" % (tid, k))
-        externals.append((t0 + st[1], lambda s=s: s.unblock()))
+        externals.append((t0 + st[1], lambda s=s: unblock(s)))
         nt[0] = True
         v = yield rc.Select([q], [s], [], st[2])
         enter(tid)
@@ -304,6 +370,66 @@ def _run_program (case, rep, w, clock, sched, fire, rc):
                        "task %s step %d (writable) got %r" % (tid, k, v)))
         if clock.now < t0 + st[1] - 1e-9:
           errs.append(("select reported a blocked socket writable", ""))
+        done_with(s, q)
+      elif kind == "sel_rw":
+        # one descriptor waited on for reading and for writing at once (by
+        # one Select, or by a second task's Select in the same hub pass): its
+        # send buffer is full, data arrives
+        s = sock("%s/%d" % (tid, k))
+        block(s)
+        externals.append((t0 + st[1], lambda s=s: feed(s, b"R")))
+        nt[0] = True
+        v = yield rc.Select([s], [s], [], st[2])
+        enter(tid)
+        rep.count("select_same_descriptor_for_reading_and_writing")
+        if v is None or list(v[0]) != [s] or v[1] or v[2]:
+          errs.append(("select did not resume with exactly the ready descriptors",
+                       "task %s step %d (read+write wait, readable) got %r" % (tid, k, v)))
+        if clock.now < t0 + st[1] - 1e-9:
+          errs.append(("select returned before data arrived", ""))
+        # ... and now it drains: writable as well
+        t1 = clock.now
+        externals.append((t1 + st[1], lambda s=s: unblock(s)))
+        try: s.recv(10)
+        except Exception: pass
+        leave()
+        v = yield rc.Select([s], [s], [], st[2])
+        enter(tid)
+        if v is None or list(v[1]) != [s] or v[0] or v[2]:
+          errs.append(("select did not resume with exactly the ready descriptors",
+                       "task %s step %d (read+write wait, writable) got %r" % (tid, k, v)))
+        if clock.now < t1 + st[1] - 1e-9:
+          errs.append(("select reported a blocked socket writable", ""))
+        done_with(s)
+      elif kind == "reuse":
+        # a connection is finished with and closed, the next one is opened
+        # (and, the way descriptors are handed out, gets the same number)
+        # and waited on without the hub having run in between
+        s1 = sock("%s/%d/1" % (tid, k))
+        externals.append((t0 + st[1], lambda s=s1: feed(s, b"one")))
+        nt[0] = True
+        v = yield rc.Recv(s1)
+        enter(tid)
+        if v != b"one":
+          errs.append(("Recv did not return the data that arrived",
+                       "task %s step %d got %r" % (tid, k, v)))
+        fd1 = s1.fileno()
+        if real:
+          for name, x in list(socks.items()):
+            if x is s1: del socks[name]
+          peers.pop(s1).close(); s1.close()
+        s2 = sock("%s/%d/2" % (tid, k))
+        if real and s2.fileno() == fd1: rep.count("descriptor_numbers_reused")
+        t1 = clock.now
+        externals.append((t1 + st[1], lambda s=s2: feed(s, b"two")))
+        leave()
+        v = yield rc.Recv(s2)
+        enter(tid)
+        rep.count("select_ready")
+        if v != b"two":
+          errs.append(("Recv did not return the data that arrived",
+                       "task %s step %d (second connection) got %r" % (tid, k, v)))
+        done_with(s2)
       elif kind == "bad_op":
         # a blocking operation that fails when the scheduler executes it: the
         # task is descheduled, nobody else is affected
@@ -608,6 +734,20 @@ def _run_program (case, rep, w, clock, sched, fire, rc):
   return nt[0]
 
 
+def close_real (w, socks, peers, real):
+  """One more hub pass without the program's descriptors (so that the select
+  function forgets them the way it does when a program stops waiting on
+  them), then they are closed."""
+  if not real: return
+  try:
+    w.hub._select(w.hub._tasks, {})
+  except Exception:
+    pass
+  for s in list(socks.values()) + list(peers.values()):
+    try: s.close()
+    except Exception: pass
+
+
 def do_case (case, rep):
   try:
     nt = run_program(case, rep)
@@ -617,7 +757,8 @@ def do_case (case, rep):
     rep.violation("C06 harness-visible exception",
                   traceback.format_exc()[-900:], case)
     nt = True
-  rep.case(repr((case["tasks"], case.get("timers"), case.get("drive"))).encode(),
+  rep.case(repr((case["tasks"], case.get("timers"), case.get("drive"),
+                 case.get("realfd"), case.get("close_after"))).encode(),
            nontrivial=bool(nt))
 
 
@@ -631,7 +772,11 @@ def rand_step (rng, tid, ntasks, blocks):
   if r < 0.68: return ["sel_data", rng.choice([0.5, 1.5, 4]), rng.choice([None, 50])]
   if r < 0.72: return ["recv", rng.choice([0.5, 2])]
   if r < 0.75: return ["recv_to", rng.choice([0.5, 2, 5])]
-  if r < 0.78: return ["sel_two", rng.choice([0.5, 1.5]), rng.choice([None, 50])]
+  if r < 0.78:
+    r2 = rng.random()
+    if r2 < 0.25: return ["sel_rw", rng.choice([0.5, 1.5]), rng.choice([None, 50])]
+    if r2 < 0.5: return ["reuse", rng.choice([0.5, 1.5])]
+    return ["sel_two", rng.choice([0.5, 1.5]), rng.choice([None, 50])]
   if r < 0.81: return ["sel_w", rng.choice([0.5, 1.5, 4]), rng.choice([None, 50])]
   if r < 0.92:
     plan = dict(ops=[rng.choice([0.5, 1, 2]) for _ in range(rng.randrange(0, 3))],
@@ -689,6 +834,9 @@ def gen_random (rng, n):
       timers.append(sp)
     case = dict(epoll=False, tasks=tasks, timers=timers)
     if rng.random() < 0.5: case["inthread"] = True
+    if rng.random() < 0.4:
+      case["realfd"] = True
+      if rng.random() < 0.6: case["close_after"] = True
     yield case
     continue
     # a task that blocks on a wake which arrives only after another task died
@@ -705,7 +853,8 @@ def gen_small ():
        ["again", dict(ops=[0.5], end="ret", value="z", propagate=False,
                       inner=dict(ops=[0.5], end="raise", value="q"))],
        ["tf", dict(ops=[], end="ret", value="z", propagate=True,
-                   inner=dict(ops=[], end="raise", value="q"))]]
+                   inner=dict(ops=[], end="raise", value="q"))],
+       ["sel_rw", 1.5, None], ["sel_w", 0.5, None], ["reuse", 1]]
   progs = [[]] + [[a] for a in V] + [[a, b] for a in V for b in V if a[0] != "raise"]
   for p1 in progs:
     for p2 in progs:
@@ -725,6 +874,9 @@ def plan (tier, seed):
            for i in range(14)])
 
 
+IO_STEPS = ("sel_to", "sel_data", "recv", "recv_to", "sel_two", "sel_w", "sel_rw", "reuse")
+n_small = [0]
+
 def run (spec, rep):
   if spec["mode"] == "small":
     g = (c for i, c in enumerate(gen_small()) if i % spec["nshards"] == spec["shard"])
@@ -739,6 +891,14 @@ def run (spec, rep):
     c2 = dict(case); c2["drive"] = "natural"
     do_case(c2, rep)
     rep.count("programs_natural_drive")
+    if spec["mode"] == "small" and any(st[0] in IO_STEPS for t in case["tasks"]
+                                       for st in t["steps"]):
+      # the enumerated programs that wait for I/O, on real descriptors too
+      n_small[0] += 1
+      c3 = dict(case, realfd=True)
+      if n_small[0] % 2: c3["close_after"] = True
+      if n_small[0] % 4 >= 2: c3["drive"] = "natural"
+      do_case(c3, rep)
 
 
 def replay (witness, rep):
